@@ -17,7 +17,8 @@ ANCHORS = {
     "C13": [("containers/model_state.py", r"self\._update_cluster_membership\(\)"), ("cluster_label_assignment.py", r"cluster\.deep_copy\(\) for cluster")],
     "C16": [("cluster_metrics.py", r"non_zero_params \+= cluster_params")],
     "C17": [("cluster_metrics.py", r"global_center = ")],
-    "C03": [("graphical_lasso.py", r"filtered\[small_element_indices\] = 0"), ("admm/solver.py", r"inner_term = ")],
+    # (solver lines run inside pool workers and are not visible to the parent's line monitor)
+    "C03": [("graphical_lasso.py", r"filtered\[small_element_indices\] = 0"), ("graphical_lasso.py", r"np\.linalg\.inv\(")],
 }
 
 
